@@ -31,7 +31,7 @@ def main(tier: str) -> int:
     n_beh = 40 if tier == "quick" else 400
     sims = {}
     for name, c in (("mix-ns", U.SIM["mix-ns"]),
-                    ("mix-ns-t", dict(U.SIM["mix-ns"], PType=1, PoolG="Empty", MaxP=2)),
+                    ("mix-ns-t", dict(U.SIM["mix-ns"], PType=1, PoolG="Empty", MaxP=3)),
                     ("mix-ns-g", dict(U.SIM["mix-ns"], PType=3))):
         sims[name] = (c, writer.simulate(c, num=n_beh, hist_len=16, seed=seed + 14)[0])
     subs = writer.substitutions(seed)
@@ -54,6 +54,9 @@ def main(tier: str) -> int:
             case = {"key": {"universe": uni, "integ": "generic", "entry": "stepwise", "sub": sub.label}, "kind": "stepwise",
                     "items": r1["accepted"], "data": r1["bytes"],
                     "replay": {"behaviour": beh["hist"], "consts": c, "sub": sub.label}}
+            if r1["rejected"]:
+                run.violation({"clause": "writer-refused-declaration-or-statement", **case["key"]},
+                              f"the writer raised on a behaviour every row of which fits the tables: {r1['rejected'][:2]}", case["replay"])
             d = writer.compare_rows(beh, r1["per_op"], sub, U.PFX_ATOMS)
             if d:
                 run.model_drift(f"{case['key']}: rows differ from PyWriter at op {d[0]}")
